@@ -51,6 +51,7 @@ static const double Q16 = 1.0 / 65536.0;
 
 struct Stats {
 	uint64_t calls, parts, cut, trim, both, shared, hidden, capped, join_ok, join_ref, join_spur, cxx_parts, poly_parts, poly_fail;
+	uint64_t hist_reset, pair_parts, pair_cut_and_trim2, pair_hidden_by_second, pair_poly_parts, pair_hist;
 	uint64_t nontrivial;
 };
 
@@ -305,6 +306,31 @@ static void drive_cxx(Case &c, bool with_poly)
 		lr = LIB(a.length_raw());
 		if (lr != (long) c.n) { c.fail("array-refine-2dim", "length", "raw", fmt("length_raw()=%ld for %zu values", lr, c.n)); return; }
 	}
+	{
+		// history: set(n) / apply(limiting) / set(-1) / apply again: the total number of covered values never changes,
+		// set(-1) makes every value visible again, and the second apply() reproduces the first partition
+		c.r.hint("array-history");
+		linepart::array a;
+		std::vector<linepart> first;
+		bool ok = LIB(a.set((long) c.n)) && LIB(a.apply(tr, 0, src));
+		copy_parts(a, first);
+		ok = ok && LIB(a.set(-1));
+		c.r.transitions += 2;
+		long lr = LIB(a.length_raw()), lu = LIB(a.length_user());
+		copy_parts(a, ps);
+		bool plain = true; for (auto &p : ps) if (!p.raw || p.raw != p.usr || p._cut || p._trim) plain = false;
+		if (asan_error()) { c.fail("array-history", "memory", "asan", "set(-1) accesses memory outside its arrays"); return; }
+		if (ok && lr == (long) c.n && lu == (long) c.n && !plain) { c.fail("array-history", "stale-marks", "after-set(-1)", "set(-1) re-partitions the values but keeps cut/trim marks of the old parts: before " + parts_str(first) + " ; after " + parts_str(ps)); return; }
+		if (!ok || lr != (long) c.n || lu != (long) c.n) { c.fail("array-history", "total-changed", lr != (long) c.n ? "raw" : "usr", fmt("set(%zu), apply(), set(-1): length_raw()=%ld length_user()=%ld", c.n, lr, lu) + " ; before " + parts_str(first) + " ; after " + parts_str(ps)); return; }
+		ok = LIB(a.apply(tr, 0, src));
+		++c.r.transitions;
+		copy_parts(a, ps);
+		if (!ok) { c.fail("array-history", "refused", "-", "apply() after set(-1) failed"); return; }
+		if (!c.judge("array-history", ps, false)) return;
+		bool eq = ps.size() == first.size(); for (size_t i = 0; eq && i < ps.size(); ++i) eq = same(ps[i], first[i]);
+		if (!eq) { c.fail("array-history", "not-reproduced", "-", "partition after set(-1)+apply() differs: " + parts_str(first) + " vs " + parts_str(ps)); return; }
+		for (auto &p : first) if (p.usr != p.raw) { ++c.st.hist_reset; break; }
+	}
 	if (!with_poly) return;
 	{
 		c.r.hint("polyline");
@@ -441,6 +467,144 @@ static void long_body(Run &r, Stats &st, const LongJob &j, Ctx &x)
 	r.beat();
 }
 
+// ------------------------------------------------------------------ job: two limited dimensions
+// job "pair|L=<n>|p=<first letter of x or ->": all pairs (x, y) of sequences of length n over the six-letter alphabets,
+// x against [0,1] in dimension 0, y against [-1,1] in dimension 1, merged by linepart::array::apply().
+// Oracle for merged parts: raw >= 1, sum raw = n, marks need points, a value is a proper drawn element (not a cut/trim
+// end) of exactly one part iff it is in range in BOTH dimensions.  Fractions of merged parts are not judged.
+static bool check_parts2(const double *x, const double *y, size_t n, const linepart *ps, size_t np, Verdict &o, Stats *st, std::vector<uint8_t> &cover)
+{
+	const Rng &g0 = RNG[0], &g1 = RNG[1];
+	cover.assign(n, 0);
+	size_t pos = 0;
+	for (size_t k = 0; k < np; ++k) {
+		const linepart &p = ps[k];
+		if (pos >= n) { o.kind = "part-after-end"; o.cls = "-"; o.detail = fmt("part %zu %s although all %zu values are consumed", k, part_str(p).c_str(), n); return false; }
+		if (!p.raw) { o.kind = "no-progress"; o.cls = "raw=0"; o.detail = fmt("part %zu at %zu is %s", k, pos, part_str(p).c_str()); return false; }
+		if (p.raw > n - pos || p.usr > n - pos) { o.kind = "overrun"; o.cls = p.raw > n - pos ? "raw>available" : "usr>available"; o.detail = fmt("part %zu at %zu is %s, %zu values remain", k, pos, part_str(p).c_str(), n - pos); return false; }
+		unsigned c = p._cut ? 1 : 0, t = p._trim ? 1 : 0;
+		if (p.usr < c + t) { o.kind = "flag-without-points"; o.cls = c ? "cut" : "trim"; o.detail = fmt("part %zu at %zu %s has a cut/trim mark but no drawn point to carry it", k, pos, part_str(p).c_str()); return false; }
+		for (size_t i = pos + c; i < pos + p.usr - t; ++i) {
+			if (inr(g0, x[i]) && inr(g1, y[i])) { if (cover[i] < 3) ++cover[i]; continue; }
+			o.kind = "outrange-drawn"; o.cls = i == pos ? "first" : (i == pos + p.usr - 1 ? "last" : "interior");
+			o.detail = fmt("part %zu at %zu %s: value[%zu]=(%.17g,%.17g) is out of range in dimension %d but is a drawn point without cut/trim mark", k, pos, part_str(p).c_str(), i, x[i], y[i], inr(g0, x[i]) ? 1 : 0);
+			return false;
+		}
+		if (st) { ++st->pair_parts; if (c && t && p.usr == 2) ++st->pair_cut_and_trim2; }
+		pos += p.raw;
+	}
+	if (pos != n) { o.kind = "raw-sum"; o.cls = pos < n ? "short" : "long"; o.detail = fmt("parts consume %zu of %zu values", pos, n); return false; }
+	for (size_t i = 0; i < n; ++i) {
+		if (!(inr(g0, x[i]) && inr(g1, y[i])) || cover[i] == 1) continue;
+		o.kind = cover[i] ? "inrange-drawn-twice" : "inrange-not-drawn"; o.cls = "-";
+		o.detail = fmt("value[%zu]=(%.17g,%.17g) is in range in both dimensions and is a drawn point of %u parts", i, x[i], y[i], cover[i]);
+		return false;
+	}
+	return true;
+}
+static void pair_case(Run &r, Stats &st, const double *x, const double *y, size_t n, const std::function<std::string()> &describe)
+{
+	std::vector<linepart> ps, first; std::vector<uint8_t> cover; Verdict o;
+	mpt::layout::graph::transform3 tr;
+	setup_tr(tr, RNG[0], 2);
+	tr._dim[1]._flags = mpt::TransformLimit; { struct mpt::range lim(RNG[1].min, RNG[1].max); tr._dim[1].limit = lim; }
+	mpt::span<const double> sx(x, n), sy(y, n);
+	auto fail = [&](const char *drv, const std::string &kind, const std::string &cls, const std::string &detail) {
+		r.violation(std::string(drv) + "|" + kind + "|" + cls, "x in [0,1], y in [-1,1], data " + describe() + " via " + drv + ": " + detail); };
+	auto judge = [&](const char *drv, bool stats) {
+		if (r.replaying) r.note("%s -> %s", drv, parts_str(ps).c_str());
+		if (asan_error()) { fail(drv, "memory", "asan", "access outside the value arrays (AddressSanitizer)"); return false; }
+		if (check_parts2(x, y, n, ps.data(), ps.size(), o, stats ? &st : 0, cover)) return true;
+		fail(drv, o.kind, o.cls, o.detail + " ; parts " + parts_str(ps)); return false; };
+	asan_error();
+	++r.states;
+	size_t visible = 0, hidden2 = 0;
+	for (size_t i = 0; i < n; ++i) { if (inr(RNG[0], x[i]) && inr(RNG[1], y[i])) ++visible; else if (inr(RNG[0], x[i])) ++hidden2; }
+	if (hidden2) ++st.pair_hidden_by_second;
+	for (int preset = 0; preset < 2; ++preset) {
+		const char *drv = preset ? "pair-refine" : "pair-apply";
+		r.hint(drv);
+		linepart::array a;
+		bool ok = (!preset || a.set((long) n)) && a.apply(tr, 0, sx) && a.apply(tr, 1, sy);
+		r.transitions += 2;
+		copy_parts(a, ps);
+		if (!ok) { fail(drv, "refused", "-", "apply() failed"); return; }
+		if (!judge(drv, preset == 1)) return;
+		long lr = a.length_raw(); unsigned long su = 0; for (auto &p : ps) su += p.usr;
+		if (lr != (long) n || a.length_user() != (long) su) { fail(drv, "length", "-", fmt("length_raw()=%ld length_user()=%ld for %zu values, sum usr %lu", lr, (long) a.length_user(), n, su)); return; }
+		if (!preset) continue;
+		// history on the merged array: set(-1) restores n plain values, applying both dimensions again reproduces the partition
+		first = ps;
+		r.hint("pair-history");
+		ok = a.set(-1);
+		++r.transitions;
+		lr = a.length_raw(); long lu = a.length_user();
+		copy_parts(a, ps);
+		bool plain = true; for (auto &p : ps) if (!p.raw || p.raw != p.usr || p._cut || p._trim) plain = false;
+		if (ok && lr == (long) n && lu == (long) n && !plain) { fail("pair-history", "stale-marks", "after-set(-1)", "set(-1) re-partitions the values but keeps cut/trim marks of the old parts: before " + parts_str(first) + " ; after " + parts_str(ps)); return; }
+		if (!ok || lr != (long) n || lu != (long) n) { fail("pair-history", "total-changed", lr != (long) n ? "raw" : "usr", fmt("set(-1) after two apply(): length_raw()=%ld length_user()=%ld for %zu values", lr, lu, n) + " ; before " + parts_str(first) + " ; after " + parts_str(ps)); return; }
+		ok = a.apply(tr, 0, sx) && a.apply(tr, 1, sy);
+		r.transitions += 2;
+		copy_parts(a, ps);
+		if (!ok) { fail("pair-history", "refused", "-", "apply() after set(-1) failed"); return; }
+		if (!judge("pair-history", false)) return;
+		bool eq = ps.size() == first.size(); for (size_t i = 0; eq && i < ps.size(); ++i) eq = same(ps[i], first[i]);
+		if (!eq) { fail("pair-history", "not-reproduced", "-", "partition after set(-1) and both apply() differs: " + parts_str(first) + " vs " + parts_str(ps)); return; }
+		for (auto &p : first) if (p.usr != p.raw) { ++st.pair_hist; break; }
+	}
+	// polyline over both dimensions: points() of every part are exactly the values visible in both dimensions
+	r.hint("pair-polyline");
+	mpt::value_store vs[2];
+	if (!vs[0].set(sx) || !vs[1].set(sy)) { r.count("polyline_store_failed"); return; }
+	mpt::polyline pl;
+	bool ok = pl.set(tr, mpt::span<const mpt::value_store>(vs, 2));
+	++r.transitions;
+	if (!ok) {
+		if (asan_error()) { fail("pair-polyline", "memory", "asan", "access outside the value arrays (AddressSanitizer)"); return; }
+		if (visible) fail("pair-polyline", "refused", "visible-points", fmt("set() failed although %zu values are in range in both dimensions", visible));
+		return;
+	}
+	mpt::span<const linepart> sp = pl.parts();
+	ps.assign(sp.begin(), sp.begin() + sp.size());
+	if (!judge("pair-polyline", false)) return;
+	unsigned long su = 0; for (auto &p : ps) su += p.usr;
+	if ((unsigned long) pl.points().size() != su) { fail("pair-polyline", "length", "points", fmt("%ld points for sum usr %lu", (long) pl.points().size(), su)); return; }
+	size_t k = 0, pos = 0, seen = 0;
+	for (mpt::polyline::iterator it = pl.begin(); it != pl.end() && k < ps.size(); ++it, ++k) {
+		mpt::polyline::part pt = *it;
+		mpt::span<const mpt::polyline::point> in = pt.points(), ln = pt.line();
+		const linepart &p = ps[k];
+		size_t f = p._cut ? 1 : 0, want = p.usr - f - (p._trim ? 1 : 0);
+		if ((size_t) ln.size() != p.usr) { fail("pair-polyline", "length", "line", fmt("part %zu line() has %ld points, usr=%u", k, (long) ln.size(), p.usr)); return; }
+		if ((size_t) in.size() != want || (in.size() && in.begin() != ln.begin() + f)) { fail("pair-polyline", "length", "points", fmt("part %zu points() has %ld points for %s: cut/trim ends are not drawn points", k, (long) in.size(), part_str(p).c_str())); return; }
+		for (size_t i = 0; i < want; ++i) {
+			double px = in.begin()[i].x, py = in.begin()[i].y; size_t idx = pos + f + i;
+			if (px != x[idx] || py != y[idx]) { fail("pair-polyline", "point-value", "in-range", fmt("part %zu drawn point %zu is (%.17g,%.17g), values are (%.17g,%.17g)", k, i, px, py, x[idx], y[idx])); return; }
+			++seen;
+		}
+		pos += p.raw;
+	}
+	if (asan_error()) { fail("pair-polyline", "memory", "asan", "walking the polyline accesses memory outside its arrays"); return; }
+	if (seen != visible) { fail("pair-polyline", "inrange-not-drawn", "iterator", fmt("iterating the parts shows %zu of %zu values visible in both dimensions", seen, visible)); return; }
+	st.pair_poly_parts += ps.size();
+	if (visible && hidden2) ++st.nontrivial;
+}
+struct PairJob { int L; int p; };
+static void pair_body(Run &r, Stats &st, const PairJob &j, Ctx &x)
+{
+	size_t n = j.L;
+	double *vx = (double *) malloc(n * sizeof(double)), *vy = (double *) malloc(n * sizeof(double));
+	int lx[8], ly[8];
+	for (size_t i = 0; i < n; ++i) { lx[i] = i == 0 && j.p >= 0 ? j.p : (int) x.choose(6); vx[i] = RNG[0].val[lx[i]]; }
+	for (size_t i = 0; i < n; ++i) { ly[i] = (int) x.choose(6); vy[i] = RNG[1].val[ly[i]]; }
+	auto desc = [&]() { std::string d = "x=["; for (size_t i = 0; i < n; ++i) d += (i ? " " : "") + std::string(RNG[0].lname[lx[i]]); d += "] y=["; for (size_t i = 0; i < n; ++i) d += (i ? " " : "") + std::string(RNG[1].lname[ly[i]]); return d + "]"; };
+	if (r.replaying) r.note("data %s", desc().c_str());
+	uint64_t nt = st.nontrivial;
+	pair_case(r, st, vx, vy, n, desc);
+	if (st.nontrivial != nt && n >= 4 && r.samples.size() < 2) r.sample("2-dim " + desc());
+	free(vx); free(vy);
+}
+
 // ------------------------------------------------------------------ job: join over all pairs of well-formed parts
 static const unsigned JV[] = {0, 1, 2, 3, 4, 32767, 32768, 65531, 65532, 65533, 65534, 65535};
 static const unsigned JF[] = {0, 1, 0x8000, 0xffff};
@@ -574,6 +738,11 @@ void mc_jobs(Tier t, std::vector<std::string> &jobs)
 	seq_jobs(jobs, 2, 8, q ? 6 : 8);      // 5 letters
 	seq_jobs(jobs, 3, 6, q ? 9 : 12);     // NULL range, 2 letters
 	seq_jobs(jobs, 4, 6, q ? 8 : 11);     // inverted range, 3 letters
+	// two limited dimensions: all pairs of sequences of length 1..4 (quick) / 1..5 (thorough)
+	for (int L = q ? 4 : 5; L >= 1; --L) {
+		if (L >= 4) for (int a = 0; a < 6; ++a) jobs.push_back(fmt("pair|L=%d|p=%d", L, a));
+		else jobs.push_back(fmt("pair|L=%d|p=-", L));
+	}
 	for (int s = 0; s < JOIN_SLICES; ++s) jobs.push_back(fmt("joinpairs|%d", s));
 	jobs.push_back("codes");
 }
@@ -582,6 +751,7 @@ static void body(Run &r, Stats &st, const std::string &job, Ctx &x)
 {
 	if (job.compare(0, 4, "seq|") == 0) { static SeqJob j; static std::string cached; if (cached != job) { j = parse_seq(job); cached = job; } seq_body(r, st, j, x); }
 	else if (job.compare(0, 5, "long|") == 0) long_body(r, st, parse_long(job), x);
+	else if (job.compare(0, 5, "pair|") == 0) { PairJob j; char pc = '-'; sscanf(job.c_str(), "pair|L=%d|p=%c", &j.L, &pc); j.p = pc == '-' ? -1 : pc - '0'; pair_body(r, st, j, x); }
 	else if (job.compare(0, 10, "joinpairs|") == 0) join_body(r, st, atoi(job.c_str() + 10), JOIN_SLICES, x);
 }
 static void flush_stats(Run &r, const Stats &st)
@@ -591,13 +761,16 @@ static void flush_stats(Run &r, const Stats &st)
 	r.count("parts_cut_only", st.cut); r.count("parts_trim_only", st.trim); r.count("parts_cut_and_trim", st.both);
 	r.count("parts_shared_endpoint(usr=raw+1)", st.shared); r.count("parts_with_hidden_values(usr<raw)", st.hidden); r.count("parts_at_limit(raw=65535)", st.capped);
 	r.count("join_merged", st.join_ok); r.count("join_refused", st.join_ref); r.count("join_spurious_refusals(not flagged)", st.join_spur);
+	r.count("array_history_reset_with_usr!=raw", st.hist_reset); r.count("pair_parts", st.pair_parts); r.count("pair_parts_cut_and_trim_usr=2", st.pair_cut_and_trim2);
+	r.count("pair_inputs_hidden_only_by_second_dimension", st.pair_hidden_by_second); r.count("pair_polyline_parts", st.pair_poly_parts); r.count("pair_history_reset_with_usr!=raw", st.pair_hist);
 	r.count("cxx_array_parts", st.cxx_parts); r.count("polyline_parts", st.poly_parts); r.count("polyline_nothing_visible", st.poly_fail);
 }
 void mc_explore(Run &r, const std::string &job)
 {
 	Stats st; memset(&st, 0, sizeof st);
 	for (const char *k : {"nontrivial", "parts_cut_only", "parts_trim_only", "parts_cut_and_trim", "parts_shared_endpoint(usr=raw+1)", "parts_with_hidden_values(usr<raw)",
-	                      "parts_at_limit(raw=65535)", "join_merged", "join_refused", "cxx_array_parts", "polyline_parts"}) r.require(k);
+	                      "parts_at_limit(raw=65535)", "join_merged", "join_refused", "cxx_array_parts", "polyline_parts",
+	                      "array_history_reset_with_usr!=raw", "pair_parts", "pair_parts_cut_and_trim_usr=2", "pair_inputs_hidden_only_by_second_dimension", "pair_polyline_parts", "pair_history_reset_with_usr!=raw"}) r.require(k);
 	if (job == "codes") { r.additive = true; r.enter(Vec(), "code"); code_job(r, st); ++r.executions; }
 	else dfs(r, [&](Ctx &x) { body(r, st, job, x); });
 	flush_stats(r, st);
